@@ -117,6 +117,22 @@ with server name `name`, the start of `ServeTCP` arrives at exactly that name. -
 theorem std_route_agree (s name : Bytes) (h : stdRoute s = some name) : sniRoute s = .ok name :=
   Lemmas.C10.sniRoute_std s name h
 
+/-- The strict reader is not vacuous: it accepts the encoding of **every** well-formed hello (extension lists
+of any length and sizes), with the hello's server name. Together with `std_accepts_agree` this is a second,
+independent route to `Props.C10.parse_encode`. -/
+theorem std_encode (h : Hello) (hw : WellFormed h) : stdServerName 32 (encode h) = some (sniOf h) := by
+  obtain ⟨rh, hf, hsid, hext⟩ := Lemmas.C10.frame_encode h hw
+  unfold stdServerName
+  rw [hf]
+  exact Lemmas.C10.stdName_encode h hw rh hsid hext
+
+/-- … and a standard server in front of the client's first flight reads that name. -/
+theorem std_route_record (vMaj vMin : UInt8) (h : Hello) (hw : WellFormed h) (hf : FitsRecord h) (rest : Bytes) :
+    stdRoute (record vMaj vMin h ++ rest) = some (sniOf h) := by
+  unfold stdRoute
+  rw [Lemmas.C10.firstMessage_record vMaj vMin h hf rest]
+  exact std_encode h hw
+
 /-! ### `ServeTCP` up to the dial: what is looked up and what is replayed -/
 
 /-- `ServeTCP` never reaches a panic point before it dials, whatever the client sends. -/
@@ -177,6 +193,24 @@ theorem serve_truncated (vMaj vMin : UInt8) (h : Hello) (hf : FitsRecord h) (k :
   | ok nm => rw [hr] at this; cases this
   | reject e => exact ⟨e, rfl⟩
 
+/-- **The first two sentences of the property, end to end.** A client sends one record carrying a well-formed
+ClientHello that fits it, followed by anything. Then: a standard TLS server reads the server name `sniOf h` from
+those bytes; `ServeTCP` arrives at the same name; and if the name is non-empty it calls `Lookup` with it having
+buffered exactly the first record — the record is what it replays to the upstream, everything behind it is still
+in the reader. (With an empty name, i.e. no `server_name` extension, it drops the connection: `serve_std_no_name`.) -/
+theorem wellformed_end_to_end (vMaj vMin : UInt8) (h : Hello) (hw : WellFormed h) (hf : FitsRecord h) (rest : Bytes) :
+    stdRoute (record vMaj vMin h ++ rest) = some (sniOf h) ∧
+    sniRoute (record vMaj vMin h ++ rest) = .ok (sniOf h) ∧
+    (sniOf h ≠ [] → serveTCP (record vMaj vMin h ++ rest) = .lookup (sniOf h) (record vMaj vMin h) rest) := by
+  have hs := std_route_record vMaj vMin h hw hf rest
+  refine ⟨hs, std_route_agree _ _ hs, fun hne => ?_⟩
+  rw [serve_std _ _ hs hne]
+  have hb : bufSizeOf (record vMaj vMin h ++ rest) = (record vMaj vMin h).length := by
+    unfold bufSizeOf
+    simp only [peekLen]
+    rw [Props.C10.bufsize_exact vMaj vMin h hf rest]
+  rw [hb, List.take_left' rfl, List.drop_left' rfl]
+
 /-! ### Non-vacuity and the exceptions, on concrete bytes -/
 
 open Fabio.Props.C10 (exHello exName)
@@ -189,6 +223,10 @@ example : readServerName (encode exHello) = .ok (exName, true) :=
 example : stdRoute (record 3 1 exHello ++ [0x14, 3, 3, 0, 1, 1]) = some exName := by decide +kernel
 example : serveTCP (record 3 1 exHello ++ [0x14, 3, 3, 0, 1, 1]) =
     .lookup exName (record 3 1 exHello) [0x14, 3, 3, 0, 1, 1] := by decide +kernel
+example : stdServerName 32 (encode exHello) = some exName := std_encode exHello (by decide +kernel)
+example : serveTCP (record 3 1 exHello ++ [0x14, 3, 3, 0, 1, 1]) =
+    .lookup exName (record 3 1 exHello) [0x14, 3, 3, 0, 1, 1] :=
+  (wellformed_end_to_end 3 1 exHello (by decide +kernel) (by decide +kernel) _).2.2 (by decide)
 example : stdServerName 32 (encode { exHello with extensions := none }) = some [] := by decide +kernel
 example : serveTCP (record 3 1 { exHello with extensions := none }) = .drop "server-name-missing" :=
   serve_std_no_name _ (by decide +kernel)
